@@ -191,10 +191,16 @@ def run_case(case):
             if errs:
                 raise Violation(f"library thread died on root deletion: {errs[0][:3]}", "thread-died:" + errs[0][2].split("(")[0], {"trace": errs[0][3]})
             return {"hits": list(_race["hits"]), "probed": 0}
-        # coverage that certainly existed
+        # coverage that certainly existed: start directories that kept path and inode.  Without an injected race the
+        # history respects the pacing condition, so every directory that exists now must be covered as well.
         probed = 0
         rec = bool(cfg.get("recursive", True))
-        for i, (p, ino) in enumerate(sorted(start_inodes.items())):
+        targets = dict(start_inodes)
+        if not case.get("race"):
+            for p, k_ in fsops.disk_tree(s.root).items():
+                if k_ == "d" and p not in targets:
+                    targets[p] = os.lstat(os.path.join(s.root, p)).st_ino
+        for i, (p, ino) in enumerate(sorted(targets.items())):
             full = os.path.join(s.root, p) if p else s.root
             try:
                 if os.lstat(full).st_ino != ino:
@@ -216,9 +222,9 @@ def run_case(case):
             hit = [e for e in evs if isinstance(e, FileCreatedEvent) and s.norm(e.src_path) == rel]
             if not hit:
                 raise Violation(
-                    f"a change in start directory {p or '.'!r} (same path and inode as at start) went unreported after history {case['bursts']} "
+                    f"a change in directory {p or '.'!r} ({'same path and inode as at start' if p in start_inodes else 'arrived during the history'}) went unreported after history {case['bursts']} "
                     f"(race hits {_race['hits']}); events: {evs[:6]}",
-                    "start-dir-unreported",
+                    "start-dir-unreported" if p in start_inodes else "dir-unreported",
                 )
             for r2 in extra_handlers:
                 with r2.cond:
